@@ -83,6 +83,13 @@ def _tx_callable(handle, spec):
         return touch
     if k == "delsnap":
         return lambda: handle.snapshot_manager.delete_snapshot(spec["snapshot"])
+    if k == "append+expire":
+        def ae():
+            with handle.new_transaction() as tx:
+                tx.append_data(spec["rows"])
+                tx.expire_snapshots(spec["cutoff"])
+                return tx.commit()
+        return ae
     if k == "expire":
         def f():
             with handle.new_transaction() as tx:
@@ -114,7 +121,19 @@ def run_case(ctx, rep, case, base_dir, model_ok):
             clock.auto_step_ms = step
             t0 = tablekit.create(loc)
             init_rows = []
-            for i in range(3):
+            if case.get("shared_manifest"):
+                # the three initial data files live in ONE manifest (one transaction): file operations of different committers meet there
+                with t0.new_transaction() as tx0:
+                    for i in range(3):
+                        r = tablekit.rows(1, start=100 + i, tag="init")
+                        tx0.append_data(r)
+                        init_rows += r
+                    tx0.commit()
+                t0.append_records(tablekit.rows(1, start=150, tag="init"))
+                init_rows += tablekit.rows(1, start=150, tag="init")
+                t0.append_records(tablekit.rows(1, start=151, tag="init"))
+                init_rows += tablekit.rows(1, start=151, tag="init")
+            for i in range(0 if case.get("shared_manifest") else 3):
                 r = tablekit.rows(1, start=100 + i, tag="init")
                 t0.append_records(r)
                 init_rows += r
@@ -133,6 +152,9 @@ def run_case(ctx, rep, case, base_dir, model_ok):
                     specs[ai] = {"kind": "append2", "parts": [tablekit.rows(1, start=1000 * ai, tag=f"a{ai}x_"), tablekit.rows(1, start=1000 * ai + 50, tag=f"a{ai}y_")]}
                 elif kind == "locktouch":
                     specs[ai] = {"kind": "locktouch"}
+                elif kind == "append+expire":
+                    specs[ai] = {"kind": "append+expire", "rows": tablekit.rows(1, start=1000 * ai, tag=f"a{ai}_"),
+                                 "cutoff": md0["snapshots"][0]["timestamp_ms"] + (1 if case["clock"] != "frozen" else 0)}
                 elif kind == "delsnap":
                     specs[ai] = {"kind": "delsnap", "snapshot": init_snaps[(ai - 1) % 2]}      # never the current one
                 elif kind == "expire":
@@ -297,7 +319,7 @@ def run_case(ctx, rep, case, base_dir, model_ok):
                 problems.append(f"lost-lock: actor {ai} flipped the pointer although its lock had been taken over by another committer before its fencing check")
             for ai, sp in specs.items():
                 ok = acks[ai]
-                if sp["kind"] == "append":
+                if sp["kind"] in ("append", "append+expire"):
                     keys = [reader.rowkey(r) for r in sp["rows"]]
                     n = sum(final_rows.count(k) for k in keys)
                     if ok and n != len(keys):
@@ -337,6 +359,15 @@ def run_case(ctx, rep, case, base_dir, model_ok):
                 if final_rows.count(k) != 1 and not deleted:
                     problems.append("an initial row is missing or duplicated")
                     break
+            # a commit reflected TWICE shows as a data file listed twice (scans de-duplicate by path, so rows alone would hide it)
+            for s_ in v["snaps"]:
+                if s_["id"] == v["cur"] and len(set(s_["files"])) != len(s_["files"]):
+                    problems.append("a data file is listed twice by the current snapshot (a commit applied twice)")
+            n_new = len([s_ for s_ in v["snaps"] if s_["id"] not in init_snaps])
+            n_ack_snap = sum(1 for a_ in specs if acks[a_] and specs[a_]["kind"] in ("append", "delfiles", "append+expire")) + \
+                sum(sum(1 for d_ in specs[a_].get("done", []) if d_) for a_ in specs if specs[a_]["kind"] == "append2")
+            if not any(acks[a_] and specs[a_]["kind"] in ("expire", "delsnap", "append+expire") for a_ in specs) and n_new > n_ack_snap:
+                problems.append(f"{n_new} new snapshots for {n_ack_snap} acknowledged snapshot-creating commits")
             # chain: linear parents, strictly increasing sequence numbers
             seqs = sorted((s["seq"], s["id"]) for s in v["snaps"])
             if len({q for q, _ in seqs}) != len(seqs):
@@ -376,14 +407,37 @@ def _stale_base_chooser(rng):
     return choose
 
 
+def _other_after_k(k):
+    """actor 1 passes k gated operations, then actor 2 commits completely, then actor 1 goes on"""
+    def mk(rng):
+        def choose(s, ready):
+            n1 = len([1 for a, _w in s.trace if a == 1])
+            if n1 < k and 1 in ready:
+                return 1
+            if 2 in ready:
+                return 2
+            return sorted(ready)[0]
+        return choose
+    return mk
+
+
 def cases(ctx):
     rng = ctx.rng("cases")
     out = []
+    # ONE transaction doing two things (append + expiry): another committer's whole commit after each k-th gated operation of it
+    for k in range(0, 45, 1 if (ctx.thorough or ctx.intensify) else 4):
+        out.append({"backend": "local", "topology": "separate", "clock": "real", "actors": 2, "kinds": ["append+expire", "append"],
+                    "chooser": _other_after_k(k), "no_model": True})
     # directed: the stale-base window with equal-millisecond clocks, metadata-only and data commits
     for kinds in (["delsnap", "delsnap"], ["expire", "delsnap"], ["append", "append"], ["delsnap", "append"], ["delfiles", "delfiles"]):
         for clock in ("frozen", "real"):
             out.append({"backend": "local", "topology": "separate", "clock": clock, "actors": 2, "kinds": kinds, "chooser": _stale_base_chooser})
     out.append({"backend": "s3cas", "topology": "separate", "clock": "frozen", "actors": 2, "kinds": ["delsnap", "delsnap"], "chooser": _stale_base_chooser})
+    # file deletes / appends of two committers that meet in ONE manifest (the loser of the race retries on a base whose manifests were rewritten)
+    for kinds in (["delfiles", "delfiles"], ["delfiles", "append"], ["delfiles", "delfiles", "delfiles"]):
+        for backend in ("local", "s3cas"):
+            out.append({"backend": backend, "topology": "separate", "clock": "real", "actors": len(kinds), "kinds": kinds, "chooser": _stale_base_chooser,
+                        "shared_manifest": True, "no_model": True})
     n = ctx.budget(40, 1500)
     for _ in range(n):
         actors = rng.choice([2, 2, 3, 3, 4])
